@@ -137,7 +137,7 @@ def instrument(rec: Rec):
             "heights": ",".join(core.rs(x) for x in heights), "interp": "-" if len(heights) == 1 else table_mode(self.gFunction),
             "hEq": float(rec.last_heq) if rec.last_heq is not None else None, "h": core.rs(h),
             "method": "hybrid" if method == TimestepType.HYBRID else "hourly", "nSteps": 0 if method == TimestepType.HYBRID else len(self.times),
-            "temps": (float(r[0]), float(r[1])), "static": rec.static_key, "id": id(self),
+            "temps": (float(r[0]), float(r[1])), "static": rec.static_key, "id": id(self), "gtok": getattr(self.gFunction, "_verif_tok", "calc"),
             "hp_eft_sha": hashlib.sha1(repr([float(x) for x in self.hp_eft]).encode()).hexdigest(),
         })
         return r
@@ -245,7 +245,7 @@ def sims_table(trace):
     """simKey -> temps; second component: keys seen with two different temperature pairs."""
     table, conflicts = {}, []
     for t in trace:
-        key = f"{t['static']}#{t['field']}#{t['heights']}#{t['h']}#{t['method']}"
+        key = f"{t['static']}#{t['field']}#{t.get('gtok', 'calc')}#{t['heights']}#{t['h']}#{t['method']}"
         val = (core.rs(t["temps"][0]), core.rs(t["temps"][1]))
         if key in table and table[key] != val:
             conflicts.append((key, table[key], val))
@@ -256,9 +256,11 @@ def sims_table(trace):
 def show_args_cmp(model: str, real: dict):
     """Compare one `showArgs` string of the model with a recorded simulation. Returns None or a reason."""
     p = model.split(";")
-    if len(p) != 8:
+    if len(p) != 9:
         return f"bad model args {model!r}"
-    f, hl, hs, it, heq, h, m, n = p
+    f, hl, hs, it, heq, h, m, n, gt = p
+    if gt != real.get("gtok", "calc"):
+        return f"table {gt} vs {real.get('gtok', 'calc')}"
     if int(f) != real["field"]:
         return f"field {f} vs {real['field']}"
     if hl != real["hLoad"]:
@@ -282,16 +284,39 @@ def static_key_ghe(spec):
                      core.rs(spec["max_h"]), core.rs(spec["min_h"]), "-", "0", "1/1", "B"])
 
 
+def table_heights(spec, name):
+    return [spec["hload"]] if name.endswith("1") else [spec["min_h"], (spec["min_h"] + spec["max_h"]) / 2, spec["max_h"]]
+
+
+def make_table(spec, name):
+    """Another g-function table for the same field: `ubwt3`, `ubwt1`, `mift3`, `mift1`, `uhtr3` (boundary condition +
+    number of stored heights), tagged so that the recorded simulations say which table the object held."""
+    from ghedesigner.gfunction import calc_g_func_for_multiple_lengths
+    from ghedesigner.utilities import eskilson_log_times
+
+    phys = dict(ghelib.default_physics())
+    phys.update(spec.get("phys", {}))
+    fluid, pipe, grout, soil, borehole, bhe_type = ghelib.media(phys, spec["pipe"])
+    g = calc_g_func_for_multiple_lengths(5.0, table_heights(spec, name), borehole.r_b, borehole.D, phys["flow"] / 1000.0 * fluid.rho, bhe_type,
+                                         eskilson_log_times(), [tuple(c) for c in spec["coords"]], fluid, pipe, grout, soil,
+                                         boundary=name[:-1].upper())
+    g._verif_tok = name
+    return g
+
+
 def build_real_ghe(spec):
     phys = dict(ghelib.default_physics())
     phys.update(spec.get("phys", {}))
     phys["borehole"] = (spec["hload"], 2.0, 0.14)   # the height the borehole has when the GHE (and its hybrid load) is built
     loads = [x * spec["scale"] for x in ghelib.atlanta_loads()]
-    return ghelib.build_ghe(phys, spec["pipe"], [tuple(c) for c in spec["coords"]], loads, spec["months"], max_h=spec["max_h"], min_h=spec["min_h"],
-                            heights=list(spec["heights"]))
+    ghe = ghelib.build_ghe(phys, spec["pipe"], [tuple(c) for c in spec["coords"]], loads, spec["months"], max_h=spec["max_h"], min_h=spec["min_h"],
+                           heights=list(spec["heights"]))
+    if spec.get("table0"):
+        ghe.gFunction = make_table(spec, spec["table0"])   # e.g. a library-style table (other boundary condition)
+    return ghe
 
 
-def apply_gop(ghe, op):
+def apply_gop(ghe, op, spec=None):
     from ghedesigner.enums import TimestepType
 
     k = op.split(":")
@@ -309,13 +334,18 @@ def apply_gop(ghe, op):
             with ghelib.quiet():
                 ghe.compute_g_functions()
             return "ok", None
+        if k[0] == "T":
+            with ghelib.quiet():
+                ghe.gFunction = make_table(spec, k[1])
+            return "ok", None
     except Exception as e:  # the implementation raised: an outcome, compared with the model
         return "raise:" + type(e).__name__, None
     raise ValueError(op)
 
 
 def ghe_worker(spec):
-    """Run one call sequence on a real GHE; then every simulate/size again on a GHE rebuilt from scratch."""
+    """Run one call sequence on a real GHE; then every simulate/size again on a GHE rebuilt from scratch
+    and brought to the state the used object has at that point (same table replacements, same height)."""
     os.environ["OMP_NUM_THREADS"] = "1"
     warnings.filterwarnings("ignore")
     rec = Rec()
@@ -328,34 +358,34 @@ def ghe_worker(spec):
         rec.fid(ghe.gFunction.bore_locations)
         rec.trace.clear()
         for op in spec["ops"]:
-            kind, val = apply_gop(ghe, op)
+            kind, val = apply_gop(ghe, op, spec)
             last = None
             if len(ghe.hp_eft) > 0:
                 mine = [t for t in rec.trace if t["id"] == id(ghe)]
                 last = mine[-1] if mine else None
             out["steps"].append({"op": op, "kind": kind, "val": val, "axis": axis_of(ghe), "table": table_mode(ghe.gFunction),
                                  "heights": ",".join(core.rs(x) for x in ghe.gFunction.g_lts), "H": core.rs(ghe.bhe.b.H),
-                                 "last": last, "cgf_done": any(o == "G" for o in spec["ops"][: spec["ops"].index(op) + 1])})
+                                 "heights_list": [float(x) for x in ghe.gFunction.g_lts], "last": last})
         out["trace"] = [{k: v for k, v in t.items() if k != "id"} for t in rec.trace]
         out["brents"] = brent_table(rec, ghe.sim_params)
-    # ---- oracle: the same call on an object built from scratch
+    # ---- oracle: the same call on an object built from scratch, with the table replacements made so far
     h = spec["h0"]
-    cgf = False
+    table_ops = []
     for i, op in enumerate(spec["ops"]):
         k = op.split(":")
         if k[0] == "H":
             h = float(core.pr(k[1]))
             continue
-        if k[0] == "G":
-            cgf = True
+        if k[0] in "GT":
+            table_ops.append(op)
             continue
         with ghelib.quiet():
             fresh = build_real_ghe(spec)
-            if cgf:
-                fresh.compute_g_functions()
+            for top in table_ops:
+                apply_gop(fresh, top, spec)
             fresh.bhe.b.H = h
-            kind, val = apply_gop(fresh, op)
-        out["fresh"].append({"i": i, "op": op, "h": h, "kind": kind, "val": val})
+            kind, val = apply_gop(fresh, op, spec)
+        out["fresh"].append({"i": i, "op": op, "h": h, "kind": kind, "val": val, "tables": list(table_ops)})
         if k[0] == "Z" and out["steps"][i]["kind"] == "temps":
             h = out["steps"][i]["val"][3]
         elif k[0] == "Z" and kind == "temps":
@@ -363,11 +393,16 @@ def ghe_worker(spec):
     return out
 
 
+def model_gops(spec):
+    return [o if o[0] != "T" else f"T:{o.split(':')[1]}:" + ",".join(core.rs(x) for x in table_heights(spec, o.split(":")[1])) for o in spec["ops"]]
+
+
 def ghe_model_line(spec, res, cmd="apighe"):
     sims, _ = sims_table(res["trace"])
     head = [cmd, str(spec["months"]), core.rs(spec["max_h"]), core.rs(spec["min_h"]), str(spec["loadlen"]), "0", core.rs(spec["hload"]),
-            ",".join(core.rs(x) for x in spec["heights"]), core.rs(spec["h0"])]
-    return " ".join(head + ["--"] + spec["ops"] + ["--"] + [f"{k}={a}:{b}" for k, (a, b) in sims.items()] + ["--"] +
+            ",".join(core.rs(x) for x in (table_heights(spec, spec["table0"]) if spec.get("table0") else spec["heights"])), core.rs(spec["h0"]),
+            spec.get("table0") or "calc"]
+    return " ".join(head + ["--"] + model_gops(spec) + ["--"] + [f"{k}={a}:{b}" for k, (a, b) in sims.items()] + ["--"] +
                     [f"{k}=>{','.join(v)}" for k, v in res["brents"].items()])
 
 
@@ -397,14 +432,51 @@ def gen_ghe_specs(rng, n, tier):
                 ops.append("S:hybrid")
             elif r < 0.85:
                 ops.append("S:hourly")
-            elif r < 0.95:
+            elif r < 0.93:
                 ops.append("Z:hybrid")
-            else:
+            elif r < 0.97:
                 ops.append("G")
+            else:
+                ops.append("T:" + rng.choice(["ubwt3", "ubwt1", "mift1"]))
         if not any(o[0] in "SZ" for o in ops):
             ops.append("S:hybrid")
         specs.append({"kind": "ghe", "pipe": pipe, "coords": coords, "months": 12, "scale": round(len(coords) * rng.uniform(0.004, 0.02), 5), "max_h": hi, "min_h": lo,
                       "heights": heights, "hload": hload, "h0": round(rng.uniform(lo, hi), 2), "ops": ops, "loadlen": 8760, "name": f"gen{i}"})
+    return specs
+
+
+def gen_repeat_specs(rng, n_each):
+    """Sequences that simulate at a height, apply ONE state-changing operation, and simulate again at the
+    SAME height with the same method: whatever the object caches per height must not survive a change of the
+    state the simulation depends on (g-function table replaced by compute_g_functions or by assignment), and must be
+    harmless across the others (size, the other time-step method, a height written and written back)."""
+    lo, hi = WINDOW
+    mid = (lo + hi) / 2
+    specs = []
+    kinds = ["G", "T", "Z", "M", "H", "GT"]
+    for kind in kinds:
+        for j in range(n_each):
+            table0 = rng.choice(["ubwt3", "ubwt1", None, None]) if kind != "G" or j % 2 else rng.choice(["ubwt3", "ubwt1"])
+            three = rng.random() < 0.5
+            hload = rng.choice([lo, mid, hi, 96.0])
+            heights = [lo, mid, hi] if three else [hload]
+            h = rng.choice([round(rng.uniform(lo, hi), 2), round(rng.uniform(lo, hi), 1), hload, mid, 100.0])
+            m = rng.choice(["hybrid", "hybrid", "hourly"])
+            other = "hourly" if m == "hybrid" else "hybrid"
+            cur = table0 or ("mift3" if three else "mift1")
+            new_t = rng.choice([t for t in ["ubwt3", "ubwt1", "mift1", "uhtr3"] if t != cur])
+            hs, sm = "H:" + core.rs(h), "S:" + m
+            ops = {"G": [hs, sm, "G", sm],
+                   "T": [hs, sm, "T:" + new_t, sm],
+                   "Z": [hs, sm, "Z:hybrid", hs, sm],
+                   "M": [hs, sm, "S:" + other, sm],
+                   "H": [hs, sm, "H:" + core.rs(round(rng.uniform(lo, hi), 1)), hs, sm],
+                   "GT": [hs, "S:hybrid", "G", "S:hourly", "T:" + new_t, "S:hybrid", "S:hourly", "G", "S:hybrid"]}[kind]
+            nx, ny = rng.choice([(1, 2), (2, 2), (2, 3), (3, 4)])
+            coords = [(x * 5.0, y * 5.0) for x in range(nx) for y in range(ny)]
+            specs.append({"kind": "ghe", "pipe": rng.choice(["SINGLEUTUBE", "SINGLEUTUBE", "DOUBLEUTUBEPARALLEL"]), "coords": coords, "months": 12,
+                          "scale": round(len(coords) * rng.uniform(0.006, 0.02), 5), "max_h": hi, "min_h": lo, "heights": heights, "hload": hload,
+                          "h0": round(rng.uniform(lo, hi), 2), "ops": ops, "loadlen": 8760, "table0": table0, "repeat": kind, "name": f"repeat-{kind}-{j}"})
     return specs
 
 
@@ -415,12 +487,27 @@ def in_window(spec, h):
 
 def check_ghe(ctx, spec, res, model_out, spec_out):
     name = spec.get("name", "?")
-    sig = ("ghe", spec["pipe"], len(spec["coords"]), len(spec["heights"]), tuple(o.split(":")[0] + (":" + o.split(":")[1] if o[0] in "SZ" else "") for o in spec["ops"]))
+    sig = ("ghe", spec["pipe"], len(spec["coords"]), len(spec["heights"]), spec.get("table0") or "calc", tuple(o.split(":")[0] + (":" + o.split(":")[1] if o[0] in "SZT" else "") for o in spec["ops"]))
     ctx.case(sig, True, {"ghe_sequence": spec["ops"], "heights": spec["heights"], "pipe": spec["pipe"], "boreholes": len(spec["coords"])})
     for o in spec["ops"]:
-        ctx.count("ghe_op:" + o.split(":")[0] + (":" + o.split(":")[1] if o[0] in "SZ" else ""))
+        ctx.count("ghe_op:" + o.split(":")[0] + (":" + o.split(":")[1] if o[0] in "SZT" else ""))
+    ctx.count("ghe_initial_table:" + (spec.get("table0") or "calc"))
+    if spec.get("repeat"):
+        ctx.count("ghe_repeat_height_around:" + spec["repeat"])
     ctx.count(f"ghe_pipe:{spec['pipe']}")
     ctx.count(f"ghe_curves:{len(spec['heights'])}")
+    # ---- does a replaced table really change the result at the repeated height? (otherwise the pair proves nothing)
+    prev = {}
+    for st_ in res["steps"]:
+        o = st_["op"]
+        if o[0] in "GT":
+            for k in prev:
+                prev[k] = (prev[k][0], True)
+        elif o[0] == "S" and st_["kind"] == "temps":
+            k = (o, st_["H"])
+            if k in prev and prev[k][1]:
+                ctx.count("same_height_across_table_change:" + ("result_changes" if prev[k][0] != st_["val"][:2] else "result_identical"))
+            prev[k] = (st_["val"][:2], False)
     # ---- trace conflicts: same arguments, different temperatures
     _, conflicts = sims_table(res["trace"])
     if conflicts:
@@ -470,14 +557,15 @@ def check_ghe(ctx, spec, res, model_out, spec_out):
                         break
         ctx.count("ghe_trace_simulations_compared", len(res["trace"]))
     if spec_out is not None:
-        kinds = [k for k, o in zip(spec_out.split(" "), spec["ops"]) if o[0] in "SZ"]
+        kinds = [k for k, o in zip(spec_out.split(" "), spec["ops"]) if o[0] in "SZ"]   # (G/T/H are not compared: always ok)
         fk = [f["kind"] for f in res["fresh"]]
         if kinds != fk:
             disagree("spec outcomes", {"model": kinds, "impl_fresh": fk})
     # ---- predicate: each call equals the call on an object built from scratch
     for f in res["fresh"]:
         st = res["steps"][f["i"]]
-        inside = (spec["min_h"] <= f["h"] <= spec["max_h"]) if st["cgf_done"] else in_window(spec, f["h"])
+        hl_ = res["steps"][f["i"] - 1]["heights_list"] if f["i"] > 0 else (table_heights(spec, spec["table0"]) if spec.get("table0") else spec["heights"])
+        inside = len(hl_) == 1 or min(hl_) <= f["h"] <= max(hl_)
         same = st["kind"] == f["kind"] and st["val"] == f["val"]
         ctx.count("ghe_calls_vs_fresh")
         ctx.count("ghe_calls_vs_fresh:" + ("inside" if inside else "outside") + "-stored-heights")
@@ -830,7 +918,7 @@ def base_configs(rng, tier):
 
 # ============================================================================ run
 def run(ctx: core.Ctx):
-    ctx.rule = ("GHE level: a case = one call sequence (setH / simulate HYBRID|HOURLY / size / compute_g_functions, length <= 6) on one real GHE "
+    ctx.rule = ("GHE level: a case = one call sequence (setH / simulate HYBRID|HOURLY / size / compute_g_functions / assigning another g-function table; random of length <= 6, plus sequences that repeat a height and method around each state-changing operation) on one real GHE "
                 "(pipe kind, field size, 1 or 3 stored heights); distinct = distinct (pipe, boreholes, curves, operation sequence); every simulate/size is "
                 "non-trivial (compared with the same call on a GHE rebuilt from scratch).  Manager level: a case = one history variant of one configuration "
                 "(find twice, redesign, rebuilt manager, permuted/repeated setters, another design first on the same/another manager, nominal height); "
@@ -861,7 +949,8 @@ def run(ctx: core.Ctx):
             j = json.loads(f.read_text())
             j["name"] = "corpus:" + f.stem
             (specs if j.get("kind") == "ghe" else mgr_corpus).append(j)
-    specs += gen_ghe_specs(rng, 12 if quick else 92, ctx.tier)
+    specs += gen_repeat_specs(rng, 1 if quick else 6)
+    specs += gen_ghe_specs(rng, 10 if quick else 80, ctx.tier)
     import time as _t
     t0 = _t.time()
     results = core.pool_map(ghe_worker, specs)
